@@ -61,6 +61,8 @@ theorem invE_tr {cfg : Config} {s s' : State} {e : Event} (ha : InvA s) (hi : In
         (fun r hw => ⟨hw, rfl, id⟩)
     · exact invE_frame hi (fun u => thrE_frame (t := t) (fun v hv => by simp [hv]) (by simp) (by simp [hl]) u)
         (fun r hw => ⟨hw, rfl, id⟩)
+    · exact invE_frame hi (fun u => thrE_frame (t := t) (fun v hv => by simp [hv]) (by simp) (by simp [hl]) u)
+        (fun r hw => ⟨hw, rfl, id⟩)
     · dsimp only
       generalize (if (s.thr t).bcast = true then s.queue else sigSelect s.recs s.queue) = sel
       refine invE_frame hi (fun u => thrE_frame (t := t) (fun v hv => by simp [hv]) (by simp) ?_ u) ?_
@@ -81,6 +83,9 @@ theorem invE_tr {cfg : Config} {s s' : State} {e : Event} (ha : InvA s) (hi : In
     have hst := ((ha.thr t).nEnq hl).1
     exact recE_notWoken (r := (s.thr t).r) (fun q hq => by simp [hq]) (by simp [hst])
   | relWait2 t new obs n hl hh hnew hn hsp =>
+    exact invE_frame hi (fun u => thrE_frame (t := t) (fun v hv => by simp [hv]) (by simp) (by simp [hl]) u)
+      (fun r hw => ⟨hw, rfl, id⟩)
+  | relDbg t new obs n hl hh hnew hn hsp =>
     exact invE_frame hi (fun u => thrE_frame (t := t) (fun v hv => by simp [hv]) (by simp) (by simp [hl]) u)
       (fun r hw => ⟨hw, rfl, id⟩)
   | relSig t site new obs n hl hs hh hnew hn hsp =>
